@@ -629,6 +629,28 @@ impl Kernel {
     }
 }
 
+#[cfg(turmoil_verif)]
+impl Kernel {
+    /// Verification hook (read-only): canonical dump of this kernel.
+    pub(crate) fn verif_dump(&self, out: &mut String) {
+        use std::fmt::Write;
+        let _ = writeln!(
+            out,
+            "kernel addrs={:?} isn={:#x} outbound={:?}",
+            self.addresses, self.tcp_isn, self.outbound
+        );
+        self.sockets.verif_dump(out);
+    }
+
+    pub(crate) fn verif_counts(&self) -> (usize, usize, usize) {
+        self.sockets.verif_counts()
+    }
+
+    pub(crate) fn verif_set_ephemeral_range(&mut self, range: std::ops::RangeInclusive<u16>) {
+        self.sockets.verif_set_ephemeral_range(range);
+    }
+}
+
 impl Default for Kernel {
     fn default() -> Self {
         Self::new()
